@@ -276,6 +276,9 @@ func (g *FuncGen) execCall(x *ssa.Call, st *State) error {
 				}
 			}
 		}
+		if (cl.Label == "bytes" && g.w.useStrings) || (cl.Label == "strings" && !g.w.useStrings) {
+			continue // clause written for the other string model
+		}
 		t, err := g.evalBool(cl.Expr, post)
 		if err != nil {
 			if strings.Contains(err.Error(), "needs the string theory") {
